@@ -47,7 +47,11 @@ fn single(cfg: &Cfg, flavor: Flavor, ops: Vec<Op>) -> Program {
 }
 
 fn job(p: Program, bounds: &[usize], tag: &str) -> Job {
-    Job { program: p, bounds: bounds.to_vec(), tag: tag.to_string() }
+    Job { program: p, bounds: bounds.to_vec(), dev_bounds: vec![], tag: tag.to_string() }
+}
+
+fn job_dev(p: Program, bounds: &[usize], dev: &[usize], tag: &str) -> Job {
+    Job { program: p, bounds: bounds.to_vec(), dev_bounds: dev.to_vec(), tag: tag.to_string() }
 }
 
 fn ins(k: u64, c: i64, ttl_ms: u64) -> Op {
@@ -919,7 +923,8 @@ pub fn c10(tier: &str, flavor: Flavor) -> Spec {
                 if h.contains(&Op::Wait) && !(o.is_empty() || (o.len() == 1 && o[0] == vec![Op::Wait])) {
                     continue;
                 }
-                jobs.push(job(conc(&cfg, flavor, &[], threads), b, "c10"));
+                let dev: &[usize] = if heavy { if quick { &[1] } else { &[4] } } else if quick { &[] } else { &[4] };
+                jobs.push(job_dev(conc(&cfg, flavor, &[], threads), b, dev, "c10"));
             }
         }
     }
@@ -941,7 +946,8 @@ pub fn c10(tier: &str, flavor: Flavor) -> Spec {
             } else {
                 &[2]
             };
-            jobs.push(job(conc(&cfg, flavor, &[], threads.clone()), b, "c10-term"));
+            let dev: &[usize] = if threads.len() > 2 { if quick { &[2] } else { &[5] } } else { &[] };
+            jobs.push(job_dev(conc(&cfg, flavor, &[], threads.clone()), b, dev, "c10-term"));
         }
     }
     Spec {
@@ -1094,7 +1100,9 @@ pub fn c12(tier: &str, flavor: Flavor) -> Spec {
                 let mut p = conc(&cfg, flavor, setup, threads);
                 // after the racing part, every kind of call on the closed cache
                 p.post = tails.clone();
-                jobs.push(job(p, b, "c12"));
+                // programs with 3 clients additionally in deviation-bounded mode (deeper)
+                let dev: &[usize] = if sh.len() > 2 { if quick { &[2] } else { &[4] } } else if quick { &[] } else { &[4] };
+                jobs.push(job_dev(p, b, dev, "c12"));
             }
         }
     }
@@ -1209,6 +1217,8 @@ pub fn c17(tier: &str, flavor: Flavor) -> Spec {
 fn o_c18(p: &Program, t: &Trace) -> Vec<Finding> {
     let mut v = o_collide(p, t);
     v.extend(o_lookup(p, t));
+    // an operation on one key must not un-charge (or charge) the other: C06 on colliding keys
+    v.extend(o_agree(p, t));
     v
 }
 
@@ -1232,6 +1242,17 @@ pub fn c18(tier: &str, flavor: Flavor) -> Spec {
         ops.push(Op::Get { k: 2 });
         ops.push(Op::Get { k: 4 });
         jobs.push(job(single(&cfg, flavor, settled(&ops)), &[0], "c18"));
+    }
+    // unsettled histories on the colliding pair: buffered work for one key while the other is touched
+    {
+        let ua = [ins(2, 1, 0), ins(4, 1, 0), Op::Rem { k: 2 }, Op::Rem { k: 4 }, Op::Get { k: 2 }, Op::Get { k: 4 }, Op::Settle];
+        for s in sequences(&ua, if quick { 4 } else { 5 }) {
+            let mut ops = s.clone();
+            ops.push(Op::Settle);
+            ops.push(Op::Get { k: 2 });
+            ops.push(Op::Get { k: 4 });
+            jobs.push(job(single(&cfg, flavor, ops), &[1], "c18-unsettled"));
+        }
     }
     Spec {
         id: "C18",
